@@ -26,19 +26,20 @@ Definition app_text (text : option str) (n : str) : str :=
 Lemma tokenise_clean : forall n text s, Forall (fun c => clean_char c = true) n -> n <> [] ->
   tokenise text (n ++ s) = tokenise (Some (app_text text n)) s.
 Proof.
+  unfold tokenise.
   induction n as [|c n IH]; intros text s HF Hne; [congruence|].
   inversion HF as [|? ? Hc Hn]; subst.
-  destruct (clean_char_facts c Hc) as [_ [_ [K1 [K2 [K3 K4]]]]].
-  cbn [app tokenise]. rewrite K1, K3, K4, K2.
+  destruct (clean_char_facts c Hc) as [_ [_ [K1 [K2 [K3 [K4 [K5 _]]]]]]].
+  cbn [app tokenise_q]. rewrite K1, K3, K5, K4, K2.
   destruct n as [|d n'].
   - cbn [app]. destruct text as [t|]; reflexivity.
-  - rewrite IH by (auto; discriminate). f_equal. f_equal.
+  - rewrite IH by (auto; discriminate). f_equal.
     destruct text as [t|]; cbn [app_text]; [rewrite <- app_assoc|]; reflexivity.
 Qed.
 
 Lemma tokenise_punct : forall c text s, is_punct c = true ->
   tokenise text (c :: s) = option_map (fun r => flush text ++ TPunct c :: r) (tokenise None s).
-Proof. intros c text s H. cbn [tokenise]. rewrite H. reflexivity. Qed.
+Proof. intros c text s H. unfold tokenise. cbn [tokenise_q]. rewrite H. reflexivity. Qed.
 
 (* a clean label followed by a punctuation character *)
 Lemma tokenise_label : forall n p s r, clean n = true -> is_punct p = true ->
@@ -48,6 +49,48 @@ Proof.
   intros n p s r Hn Hp Hs. destruct (clean_Forall n Hn) as [Hne HF].
   rewrite tokenise_clean by assumption. cbn [app_text]. rewrite tokenise_punct by exact Hp.
   rewrite Hs. cbn [option_map flush app]. rewrite strip_ws_clean by exact Hn. reflexivity.
+Qed.
+
+(* inside a quoted label clean characters are collected *)
+Lemma tokenise_in_quote : forall n acc rest, Forall (fun c => clean_char c = true) n ->
+  tokenise_q (Some acc) None (n ++ rest) = tokenise_q (Some (acc ++ n)) None rest.
+Proof.
+  induction n as [|c n IH]; intros acc rest HF; [rewrite app_nil_r; reflexivity|].
+  inversion HF as [|? ? Hc Hn]; subst.
+  destruct (clean_char_facts c Hc) as [_ [_ [K1 [K2 [K3 [K4 [K5 K6]]]]]]].
+  cbn [app tokenise_q]. rewrite K5, K3, K6. rewrite IH by exact Hn. rewrite <- app_assoc. reflexivity.
+Qed.
+
+Lemma punct_not_quote : forall p, is_punct p = true -> Ascii.eqb p "'" = false.
+Proof.
+  intros p H. unfold is_punct in H. cbn [existsb] in H.
+  repeat (apply orb_true_iff in H; destruct H as [H|H]; [apply Ascii.eqb_eq in H; subst; reflexivity|]).
+  discriminate.
+Qed.
+
+(* a clean name in single quotes followed by a punctuation character *)
+Lemma tokenise_quoted : forall n p s r, clean n = true -> is_punct p = true ->
+  tokenise None s = Some r ->
+  tokenise None ("'" :: n ++ "'" :: p :: s) = Some (TLabel n :: TPunct p :: r).
+Proof.
+  intros n p s r Hn Hp Hs. destruct (clean_Forall n Hn) as [Hne HF].
+  unfold tokenise in *. destruct n as [|c n']; [congruence|].
+  inversion HF as [|? ? Hc Hn']; subst.
+  destruct (clean_char_facts c Hc) as [_ [_ [_ [_ [_ [_ [K5 _]]]]]]].
+  cbn [app]. change (tokenise_q None None ("'" :: c :: n' ++ "'" :: p :: s))
+    with (if Ascii.eqb c "'" then None else tokenise_q (Some []) None (c :: n' ++ "'" :: p :: s)).
+  rewrite K5. change (c :: n' ++ "'" :: p :: s) with ((c :: n') ++ "'" :: p :: s).
+  rewrite tokenise_in_quote by exact HF. cbn [app tokenise_q]. rewrite (punct_not_quote p Hp).
+  rewrite Hp, Hs. reflexivity.
+Qed.
+
+Lemma tokenise_name : forall n p s r, clean n = true -> is_punct p = true ->
+  tokenise None s = Some r ->
+  tokenise None (print_name n ++ p :: s) = Some (TLabel n :: TPunct p :: r).
+Proof.
+  intros n p s r Hn Hp Hs. destruct (print_name_clean n Hn) as [E|E]; rewrite E.
+  - apply tokenise_label; assumption.
+  - cbn [app]. rewrite <- app_assoc. cbn [app]. apply tokenise_quoted; assumption.
 Qed.
 
 Lemma tokenise_plen : forall l p s r, clean_len l = true -> is_punct p = true ->
@@ -66,11 +109,10 @@ Proof.
   induction t as [n l|cs l IH] using tree_ind'; intros p s r Hi Hc Hp Hs.
   - cbn [clean_tree] in Hc. apply andb_true_iff in Hc. destruct Hc as [Hn Hl].
     cbn [print_node ptoks]. rewrite <- app_assoc.
-    destruct (clean_Forall n Hn) as [Hne HF].
     destruct l as [x|]; cbn [plen ltoks app].
-    + rewrite (tokenise_label n ":" (x ++ p :: s) (TLabel x :: TPunct p :: r) Hn eq_refl); [reflexivity|].
+    + rewrite (tokenise_name n ":" (x ++ p :: s) (TLabel x :: TPunct p :: r) Hn eq_refl); [reflexivity|].
       apply tokenise_label; assumption.
-    + apply tokenise_label; assumption.
+    + apply tokenise_name; assumption.
   - apply clean_tree_node in Hc. destruct Hc as [Hcs Hl].
     cbn [inhabited] in Hi. apply andb_true_iff in Hi. destruct Hi as [Hne Hin].
     rewrite forallb_forall in Hin. rewrite Forall_forall in IH.
